@@ -423,7 +423,17 @@ def r_singleton(e, R):
             evaluators=[reuse_true(False)])
     SC.never(e, R, "R-SINGLETON", fac, "a size is given", [(SC.name(mwp), "some")], lambda n: keep(n) or cpu(n), "an override of the requested size",
              "the requested max_workers is ignored")
-    R.floor("R-SINGLETON", 42)
+    # public defaults: the previous executor is waited for (not killed) and reuse is decided by comparing the arguments
+    def _defaults(fn):
+        pos = dict(zip([a_.arg for a_ in fn.node.args.args[len(fn.node.args.args) - len(fn.node.args.defaults):]], fn.node.args.defaults))
+        kw = {a_.arg: d_ for a_, d_ in zip(fn.node.args.kwonlyargs, fn.node.args.kw_defaults) if d_ is not None}
+        return {k: (v.value if isinstance(v, ast.Constant) else "?") for k, v in {**pos, **kw}.items()}
+    for fn in (pub, fac):
+        dv = _defaults(fn)
+        R.check(dv.get("kill_workers") is False and dv.get("reuse") == "auto" and dv.get("max_workers", None) is None, "R-SINGLETON",
+                f"{fn.short}: defaults are max_workers=None, reuse='auto', kill_workers=False", fn.short, f"{ {k: dv.get(k) for k in ('max_workers', 'reuse', 'kill_workers')} }",
+                "the public defaults changed: replacing an executor kills its running tasks by default, or reuse no longer compares the arguments", e.loc(fn, fn.node))
+    R.floor("R-SINGLETON", 44)
 
 
 # ---------------------------------------------------------------------------
